@@ -1,5 +1,6 @@
 /* C05: h_parse -- the dispatcher of JSON::parse(StringReader&, bool); the four big branches are separate functions */
 #include "harness/C05/common.h"
+#include "x_json_rd.c"      /* eof / where / size / go: real bodies */
 #include "x_json_dispatch.c"
 
 void h_parse(void) { StringReader* r; JVal* ret; bool in_de; IN_COMMON; g_j.de = in_de; int in_pc; g_j.pc = in_pc; JSON_parse(r, in_de, ret); VERIF_REACH(); }
